@@ -471,7 +471,15 @@ def rerun_fixed_point(rep, drv, contents, res, k, case_dir, src_root, dst_root, 
     if cfg.get("cmp") == "i":
         # --ignore-times re-transfers every file by definition: only the unchanged-destination half applies (content, link text)
         strip = lambda fp: {r: (v[0], v[1], v[2]) if v[0] == "f" else v for r, v in fp.items()}
-        if strip(fp0) != strip(fp1): rep.oracle_fail("C03/rerun-changed-destination-content", "re-run with --ignore-times changed destination content", desc)
+        a_, b_ = strip(fp0), strip(fp1)
+        ch = sorted(r for r in set(a_) | set(b_) if a_.get(r) != b_.get(r))
+        # the recorded finding C05/user-file-named-like-temp (= C06/extra-named-like-working-file-clobbered): an entry of the user that bears
+        # the working-file name of a regular file this run re-transferred is removed; it is reported by the C05 / C06 checks, not here
+        known = [r for r in ch if r.endswith(".sy.tmp") and r not in post and pre[r]["k"] != "d" and (pre.get(r[:-7]) or {}).get("k") == "f"
+                 and os.path.isfile(os.path.join(src_root, r[:-7])) and not os.path.lexists(os.path.join(src_root, r))]
+        if known: rep.tag("known.working-file-name-in-use")
+        ch = [r for r in ch if r not in known]
+        if ch: rep.oracle_fail("C03/rerun-changed-destination-content", f"re-run with --ignore-times changed destination content: {ch[:4]}", desc)
         return
     if summ["files_created"] or summ["files_updated"] or summ["files_deleted"] or summ["bytes_transferred"]:
         acts = sorted((e["type"], os.path.relpath(e["path"], dst_root)) for e in ev if e.get("type") in ("create", "update", "delete"))
